@@ -4,6 +4,7 @@ package storeops
 
 import (
 	"context"
+	"encoding/hex"
 	"errors"
 	"fmt"
 	"net"
@@ -15,6 +16,8 @@ import (
 	"github.com/sergeii/swat4master/internal/core/entities/addr"
 	ds "github.com/sergeii/swat4master/internal/core/entities/discovery/status"
 	"github.com/sergeii/swat4master/internal/core/entities/filterset"
+	"github.com/sergeii/swat4master/internal/core/entities/instance"
+	"github.com/sergeii/swat4master/internal/core/entities/probe"
 	"github.com/sergeii/swat4master/internal/core/entities/server"
 	"github.com/sergeii/swat4master/internal/core/repositories"
 	"github.com/sergeii/swat4master/verifharness/internal/world"
@@ -113,6 +116,19 @@ func ParseFilterSet(parts []string) (filterset.ServerFilterSet, error) {
 	return fs, nil
 }
 
+func ParseTime(s string) time.Time {
+	if s == "z" {
+		return time.Time{}
+	}
+	n, _ := strconv.ParseInt(s, 10, 64)
+	return time.Unix(0, n).UTC()
+}
+
+// RenderProbe: <addr>/<port>/<goal>/<retries>/<max>
+func RenderProbe(p probe.Probe) string {
+	return fmt.Sprintf("%s/%d/%d/%d/%d", p.Addr.String(), p.Port, int(p.Goal), p.Retries, p.MaxRetries)
+}
+
 func ErrClass(err error) string {
 	switch {
 	case err == nil:
@@ -195,6 +211,58 @@ func RunCall(p *world.Proc, spec string) string {
 			return ErrClass(err)
 		}
 		return "ok:" + SortedServers(out)
+	case "insadd":
+		id, err := hex.DecodeString(parts[1])
+		if err != nil || len(id) != 4 {
+			return "bad-spec"
+		}
+		host, port, _ := strings.Cut(parts[2], ":")
+		pn, _ := strconv.Atoi(port)
+		ins, err := instance.New(instance.MustNewID(id), net.ParseIP(host), pn)
+		if err != nil {
+			return "bad-spec"
+		}
+		return ErrClass(p.Instances.Add(ctx, ins))
+	case "insrm":
+		id, err := hex.DecodeString(parts[1])
+		if err != nil || len(id) != 4 {
+			return "bad-spec"
+		}
+		return ErrClass(p.Instances.Remove(ctx, instance.MustNewID(id)))
+	case "insclear":
+		fs := filterset.NewInstanceFilterSet()
+		if parts[1] != "z" {
+			fs = fs.UpdatedBefore(ParseTime(parts[1]))
+		}
+		n, err := p.Instances.Clear(ctx, fs)
+		if err != nil {
+			return ErrClass(err)
+		}
+		return fmt.Sprintf("ok:%d", n)
+	case "penq":
+		if len(parts) != 8 {
+			return "bad-spec"
+		}
+		host, port, _ := strings.Cut(parts[1], ":")
+		pn, _ := strconv.Atoi(port)
+		pp, _ := strconv.Atoi(parts[2])
+		goal, _ := strconv.Atoi(parts[3])
+		retries, _ := strconv.Atoi(parts[4])
+		maxr, _ := strconv.Atoi(parts[5])
+		prb := probe.New(addr.NewForTesting(net.ParseIP(host), pn), pp, probe.Goal(goal), maxr)
+		prb.Retries = retries
+		return ErrClass(p.Probes.AddBetween(ctx, prb, ParseTime(parts[6]), ParseTime(parts[7])))
+	case "ppop":
+		n, _ := strconv.Atoi(parts[1])
+		prbs, expired, err := p.Probes.PopMany(ctx, n)
+		if err != nil {
+			return ErrClass(err)
+		}
+		xs := make([]string, len(prbs))
+		for i, x := range prbs {
+			xs[i] = RenderProbe(x)
+		}
+		return fmt.Sprintf("ok:%d:%s", expired, strings.Join(xs, ","))
 	case "count":
 		n, err := p.Servers.Count(ctx)
 		if err != nil {
